@@ -19,6 +19,9 @@ struct Op {
 // (-1 = never) with variant 0 = before, 1 = after, 2 = torn write
 void arm(long crash_at, int variant, double torn_fraction);
 void disarm();
+// only files whose path contains `substr` are tracked, and only renames whose
+// source or destination contains it are numbered (empty = everything)
+void set_filter(const char *substr);
 long count();
 void set_tag(int tag);
 const std::vector< Op > &log();
